@@ -220,6 +220,11 @@ func c01Check(env *h.Env, c *c01Case) error {
 		opt.ContentHasher = h.Hasher
 	}
 	if c.AbortAt > 0 {
+		// (its own log: writer goroutines of the aborted call may still report for a moment)
+		nlAbort := &h.NotifyLog{}
+		if c.Notify {
+			opt.NotifyHashed = nlAbort.Fn
+		}
 		// leftovers of an aborted run of the same transfer
 		ar := h.RunSync(f, dstDir, h.SyncOpt{Capacity: c.Capacity, Recv: opt, Setup: func(p *h.Pair) {
 			p.R.BeforeRecv = func(n int) error {
@@ -239,7 +244,6 @@ func c01Check(env *h.Env, c *c01Case) error {
 			env.Class("after-aborted-run")
 			env.NonTrivial()
 		}
-		nl = h.NotifyLog{}
 		if c.Notify {
 			opt.NotifyHashed = nl.Fn
 		}
